@@ -161,6 +161,7 @@ Definition ladd (l : ledger) (k : key) (d : Z) : ledger :=
 Definition ModX     : Z := -1.   (* the crosschain module account (eth, bsc, …) *)
 Definition ModErc20 : Z := -2.   (* the erc20 module account *)
 Definition Supply   : Z := -3.   (* bank supply / ERC-20 totalSupply *)
+Definition ModWFX   : Z := -5.   (* the WFX contract's own account: holds the FX behind wrapped FX *)
 (* asset kinds *)
 Definition Base   : Z := 0.      (* base coin of a bridged token *)
 Definition Bridge : Z := 1.      (* its bridge denom in this crosschain module *)
@@ -179,22 +180,24 @@ Record bst := {
   outcalls   : list outcall;   (* outgoing bridge calls *)
   next_id    : Z;              (* KeyLastBridgeCallID counter (value that the next call gets) *)
   timeout_ok : bool;           (* CalExternalTimeoutHeight > 0: an external block height has been observed *)
-  evmst      : Z               (* contract storage of the call target — written by the callee *)
+  evmst      : Z;              (* contract storage of the call target — written by the callee *)
+  tkind      : Z -> Z          (* token kind: 0 = pair owned by the module (coin is the origin), 1 = pair owned externally
+                                  (ERC-20 is the origin), otherwise the native coin FX *)
 }.
 
 Definition set_bal (s : bst) (l : ledger) : bst :=
   {| bal := l; registered := registered s; enabled := enabled s; pendingc := pendingc s;
-     outcalls := outcalls s; next_id := next_id s; timeout_ok := timeout_ok s; evmst := evmst s |}.
+     outcalls := outcalls s; next_id := next_id s; timeout_ok := timeout_ok s; evmst := evmst s; tkind := tkind s |}.
 Definition set_evmst (s : bst) (v : Z) : bst :=
   {| bal := bal s; registered := registered s; enabled := enabled s; pendingc := pendingc s;
-     outcalls := outcalls s; next_id := next_id s; timeout_ok := timeout_ok s; evmst := v |}.
+     outcalls := outcalls s; next_id := next_id s; timeout_ok := timeout_ok s; evmst := v; tkind := tkind s |}.
 Definition del_pending (s : bst) (n : Z) : bst :=
   {| bal := bal s; registered := registered s; enabled := enabled s;
      pendingc := (fun m => if m =? n then false else pendingc s m);
-     outcalls := outcalls s; next_id := next_id s; timeout_ok := timeout_ok s; evmst := evmst s |}.
+     outcalls := outcalls s; next_id := next_id s; timeout_ok := timeout_ok s; evmst := evmst s; tkind := tkind s |}.
 Definition add_outcall (s : bst) (o : outcall) : bst :=
   {| bal := bal s; registered := registered s; enabled := enabled s; pendingc := pendingc s;
-     outcalls := outcalls s ++ [o]; next_id := next_id s + 1; timeout_ok := timeout_ok s; evmst := evmst s |}.
+     outcalls := outcalls s ++ [o]; next_id := next_id s + 1; timeout_ok := timeout_ok s; evmst := evmst s; tkind := tkind s |}.
 
 Record bcmsg := {
   m_nonce : Z; m_sender : Z; m_refund : Z; m_to : Z;
@@ -205,14 +208,23 @@ Record bcmsg := {
 
 Definition receiver (m : bcmsg) : Z := if m_sendcallto m then m_sender m else m_to m.
 
-(* BridgeTokenToBaseCoin(ctx, token, amount, holder) for a token whose pair is a native-coin pair:
-   DepositBridgeToken mints the bridge denom into the module and sends it to the holder; ConversionCoin
-   takes it back into the module, mints the base coin and sends that to the holder. *)
+(* BridgeTokenToBaseCoin(ctx, token, amount, holder) = DepositBridgeToken + ManyToOne + ConversionCoin (many_to_one.go):
+   kind 0  mint the bridge denom into the module, send it to the holder; take it back, mint the base coin, send it
+   kind 1  send module-held bridge tokens to the holder (the module must hold them); take them back, burn them, mint the base coin
+   FX      send module-held FX to the holder (the module must hold it); no conversion *)
 Definition deposit_one (holder : Z) (ta : Z * Z) (s : bst) : result bst :=
   let (t, a) := ta in
   if negb (registered s t) then Err s else
-  Ok (set_bal s (ladd (ladd (ladd (ladd (bal s)
-        (holder, Base, t) a) (ModX, Bridge, t) a) (Supply, Bridge, t) a) (Supply, Base, t) a)).
+  if tkind s t =? 0 then
+    Ok (set_bal s (ladd (ladd (ladd (ladd (bal s)
+          (holder, Base, t) a) (ModX, Bridge, t) a) (Supply, Bridge, t) a) (Supply, Base, t) a))
+  else if tkind s t =? 1 then
+    if bal s (ModX, Bridge, t) <? a then Err s else
+    Ok (set_bal s (ladd (ladd (ladd (ladd (bal s)
+          (holder, Base, t) a) (ModX, Bridge, t) (- a)) (Supply, Bridge, t) (- a)) (Supply, Base, t) a))
+  else
+    if bal s (ModX, Base, t) <? a then Err s else
+    Ok (set_bal s (ladd (ladd (bal s) (holder, Base, t) a) (ModX, Base, t) (- a))).
 
 (* sdk.Coins.Add: one coin per denom, sorted by denom, zero coins dropped.
    Token ids order like their base denoms (harness guarantees). *)
@@ -228,20 +240,38 @@ Definition drop_zero (cs : list (Z * Z)) : list (Z * Z) := filter (fun ta => neg
 Definition base_coins (tokens : list (Z * Z)) : list (Z * Z) :=
   fold_left (fun cs ta => drop_zero (coins_add cs (fst ta) (snd ta))) tokens [].
 
-(* BaseCoinToEvm(ctx, coin, holder) = erc20 ConvertCoin for a native-coin pair *)
+(* BaseCoinToEvm(ctx, coin, holder) = erc20 ConvertCoin (x/erc20/keeper/msg_server.go):
+   kind 0  escrow the coin in the erc20 module, mint ERC-20
+   kind 1  escrow the coin, transfer module-held ERC-20 to the holder (the module must hold it), burn the coin
+   FX      escrow, mint WFX, move the FX on to the WFX contract's account *)
 Definition to_evm_one (holder : Z) (ta : Z * Z) (s : bst) : result bst :=
   let (t, a) := ta in
   if negb (enabled s t) then Err s else
   if bal s (holder, Base, t) <? a then Err s else
-  Ok (set_bal s (ladd (ladd (ladd (ladd (bal s)
-        (holder, Base, t) (- a)) (ModErc20, Base, t) a) (holder, Erc, t) a) (Supply, Erc, t) a)).
+  if tkind s t =? 0 then
+    Ok (set_bal s (ladd (ladd (ladd (ladd (bal s)
+          (holder, Base, t) (- a)) (ModErc20, Base, t) a) (holder, Erc, t) a) (Supply, Erc, t) a))
+  else if tkind s t =? 1 then
+    if bal s (ModErc20, Erc, t) <? a then Err s else
+    Ok (set_bal s (ladd (ladd (ladd (ladd (bal s)
+          (holder, Base, t) (- a)) (Supply, Base, t) (- a)) (ModErc20, Erc, t) (- a)) (holder, Erc, t) a))
+  else
+    Ok (set_bal s (ladd (ladd (ladd (ladd (bal s)
+          (holder, Base, t) (- a)) (ModWFX, Base, t) a) (holder, Erc, t) a) (Supply, Erc, t) a)).
 
-(* BaseCoinToBridgeToken(ctx, coin, holder): ConversionCoin base -> bridge, then WithdrawBridgeToken (burn) *)
+(* BaseCoinToBridgeToken(ctx, coin, holder): ConversionCoin base -> bridge, then WithdrawBridgeToken — the exact inverse
+   of the deposit, taken from `holder` *)
 Definition withdraw_one (holder : Z) (ta : Z * Z) (s : bst) : result bst :=
   let (t, a) := ta in
   if bal s (holder, Base, t) <? a then Err s else
-  Ok (set_bal s (ladd (ladd (ladd (ladd (bal s)
-        (holder, Base, t) (- a)) (Supply, Base, t) (- a)) (ModX, Bridge, t) (- a)) (Supply, Bridge, t) (- a))).
+  if tkind s t =? 0 then
+    Ok (set_bal s (ladd (ladd (ladd (ladd (bal s)
+          (holder, Base, t) (- a)) (ModX, Bridge, t) (- a)) (Supply, Bridge, t) (- a)) (Supply, Base, t) (- a)))
+  else if tkind s t =? 1 then
+    Ok (set_bal s (ladd (ladd (ladd (ladd (bal s)
+          (holder, Base, t) (- a)) (ModX, Bridge, t) a) (Supply, Bridge, t) a) (Supply, Base, t) (- a)))
+  else
+    Ok (set_bal s (ladd (ladd (bal s) (holder, Base, t) (- a)) (ModX, Base, t) a)).
 
 (* bank SendCoins(from, to, coin) of one base coin (hand-over of the deposit to the refund address) *)
 Definition move_one (from to : Z) (ta : Z * Z) (s : bst) : result bst :=
@@ -321,7 +351,7 @@ Definition bst_eq (a b : bst) : Prop :=
   (forall k, bal a k = bal b k) /\ (forall n, pendingc a n = pendingc b n) /\
   outcalls a = outcalls b /\ next_id a = next_id b /\ evmst a = evmst b /\
   (forall t, registered a t = registered b t) /\ (forall t, enabled a t = enabled b t) /\
-  timeout_ok a = timeout_ok b.
+  timeout_ok a = timeout_ok b /\ (forall t, tkind a t = tkind b t).
 
 (* total amount of token t listed in a claim *)
 Fixpoint total (tokens : list (Z * Z)) (t : Z) : Z :=
